@@ -490,7 +490,10 @@ func extractElGamalPublicKey(data []byte, pubKeySize int) (types.ReceivingPublic
 // extractPaddingData extracts padding bytes from the data at the specified range.
 // Returns a copy of the padding data.
 func extractPaddingData(data []byte, paddingStart, paddingEnd int) []byte {
-	return data[paddingStart:paddingEnd]
+	// copy, like extractPaddingFromData does: the padding must not alias the input buffer
+	padding := make([]byte, paddingEnd-paddingStart)
+	copy(padding, data[paddingStart:paddingEnd])
+	return padding
 }
 
 // extractEd25519SigningKey extracts and validates an Ed25519 signing public key from the data.
@@ -501,7 +504,9 @@ func extractEd25519SigningKey(data []byte, offset, sigKeySize int) (types.Signin
 		log.WithError(err).Error("Invalid Ed25519 public key length")
 		return nil, err
 	}
-	signingPubKeyData := data[offset : offset+sigKeySize]
+	// copy: NewEd25519PublicKey wraps its argument and the key must not alias the input buffer
+	signingPubKeyData := make([]byte, sigKeySize)
+	copy(signingPubKeyData, data[offset:offset+sigKeySize])
 	ed25519Key, err := ed25519.NewEd25519PublicKey(signingPubKeyData)
 	if err != nil {
 		return nil, oops.Wrapf(err, "failed to construct Ed25519 signing key")
